@@ -94,3 +94,18 @@ Theorem C01_late_clamp_refuted : exists ops,
   remaining s' = [] /\ out <> inp /\ inp = [EW 1; EW 2; EW 3; ES]%nat /\ out = [EW 1; EW 2; ES; EW 3]%nat.
 Proof. exact late_clamp_refuted. Qed.
 Print Assumptions C01_late_clamp_refuted.
+
+(* ---- the fall-back header stays usable: how far a commit may truncate a bounded file (tx.go checkTruncate) ----
+   When a commit truncates the file, the new size covers what the new commit needs AND what the previous commit - the
+   header that is selected when the new one is damaged or lost - needs. *)
+From VF Require Import Truncate TruncateProofs.
+Theorem C01_truncate_keeps_both_commits : forall lastEnd sz mmapSz maxSz pageSize e,
+  check_truncate lastEnd sz mmapSz maxSz pageSize = (e, true) ->
+  (mmapSz <= e /\ lastEnd * pageSize <= e /\ maxSz <= e /\ e < sz /\ 0 < maxSz)%Z.
+Proof. exact check_truncate_spec. Qed.
+Print Assumptions C01_truncate_keeps_both_commits.
+
+Theorem C01_truncate_clamped_refuted : exists lastEnd sz mmapSz maxSz pageSize e,
+  check_truncate_clamped lastEnd sz mmapSz maxSz pageSize = (e, true) /\ (e < lastEnd * pageSize)%Z.
+Proof. exact check_truncate_clamped_refuted. Qed.
+Print Assumptions C01_truncate_clamped_refuted.
